@@ -235,6 +235,7 @@ class Outcome:
         for key, (what, witness) in sorted(seen_known.items()):
             print("KNOWN-FINDING: property=%s %s (%s)" % (self.pid, key, listed[key]["what"]))
         rc = 0
+        shutil.rmtree(os.path.join(REPLAYS, self.pid), ignore_errors=True)
         os.makedirs(os.path.join(REPLAYS, self.pid), exist_ok=True)
         reported = set()
         for key, what, witness in new:
@@ -275,3 +276,15 @@ class Outcome:
 
 def h12(obj):
     return hashlib.sha1(json.dumps(obj, sort_keys=True).encode()).hexdigest()[:12]
+
+
+def pmap(fn, items, chunksize=8):
+    """map over items in a fork pool (the harness is pure Python + picosvg: fork-safe)."""
+    import multiprocessing as mp
+
+    items = list(items)
+    if len(items) < 32 or NCPU < 2:
+        return [fn(x) for x in items]
+    ctx = mp.get_context("fork")
+    with ctx.Pool(min(NCPU, 16)) as pool:
+        return pool.map(fn, items, chunksize=chunksize)
